@@ -84,6 +84,7 @@ type PathRun struct {
 	chanID    int
 	nAsserts  int
 	lastNow   *Term
+	decided   map[int]bool
 }
 
 type branchKey struct {
@@ -134,6 +135,21 @@ func (p *PathRun) Branch(cond *Term) bool {
 	if cond.IsConst() {
 		return cond.Val != 0
 	}
+	// a condition decided earlier on this path stays decided (the path condition only grows);
+	// term identity is deterministic across re-executions, so prefix replay stays consistent.
+	if v, ok := p.decided[cond.ID]; ok {
+		return v
+	}
+	res := p.branchUncached(cond)
+	if p.decided == nil {
+		p.decided = map[int]bool{}
+	}
+	p.decided[cond.ID] = res
+	p.decided[p.ctx.Not(cond).ID] = !res
+	return res
+}
+
+func (p *PathRun) branchUncached(cond *Term) bool {
 	if p.pos < len(p.prefix) {
 		d := p.prefix[p.pos]
 		p.pos++
